@@ -39,7 +39,7 @@ META = {
             "trees pass; distinct by (configuration, source).  Model ties: first 20 000 (quick) / 300 000 (thorough) "
             "generated names, 6 000 / 300 000 raw permutator strings, 300 / 5 000 random operation traces (non-trivial = "
             "contains a pop).  Each run also checks that the oracle flags 3 negative controls (captures produced by the real "
-            "rule with detect_globals off) and 11 hand-made bad trees (one per verdict class, plus an explicit parameter `self` in a method).",
+            "rule with detect_globals off) and 15 hand-made trees (one per verdict class, an explicit parameter `self` in a method, names listed before/after a group entry of `globals`).  Configurations: 7 base ones + `globals` lists with $default/$roblox at every position among a, b, c, d (10 fixed lists x include_functions x detect_globals + seeded random permutations) on 9 programs whose globals are a, b, c, d.",
     "assumptions": ["fewer than 4 771 499 permutator strings are consumed in one file (the next one is `self`, which the rule "
                     "never avoids: known finding self-generated-after-4.7M-names; C09_generated_disjoint_from_kept is stated "
                     "under this bound and C09_generated_disjoint_from_kept_refuted shows it is needed)",
@@ -108,11 +108,16 @@ Definition verdict (incl : bool) (globals : list name) (bin bout : block) : N :=
   if list_N_eqb (fingerprint (nameless bout)) (fingerprint (nameless bin))
   then judge incl globals (free_globals bin) (combine (binders_k bin) (binders_k bout)) false
   else 2.
+(* the configured globals, for the oracle: DEFAULT (the rule starts from it) and, for every entry of the `globals`
+   list in whatever order, the names it stands for - written independently of Model.Rename.set_globals *)
+Definition spec_globals (entries : list gentry) : list name :=
+  (g_default ++ flat_map (fun e => match e with GDefault => g_default | GRoblox => g_roblox | GName x => [x] end) entries)%%list.
 (* + 10000 when the tree darklua produced is not EXACTLY the tree Model/RenameTraversal.v produces *)
-Definition stat_case (c : ((bool * bool) * list name) * (block * (block * block))) : N :=
-  let '(((incl, detect), globals), (bin, (bout, be2e))) := c in
-  (if list_N_eqb (fingerprint (rename_model globals incl detect bin)) (fingerprint bout) then 0 else 10000)
-  + 100 * verdict incl globals bin bout + verdict incl globals bin be2e.
+Definition stat_case (c : ((bool * bool) * list gentry) * (block * (block * block))) : N :=
+  let '(((incl, detect), entries), (bin, (bout, be2e))) := c in
+  (if list_N_eqb (fingerprint (rename_model (configured_globals g_default g_roblox entries) incl detect bin))
+                 (fingerprint bout) then 0 else 10000)
+  + 100 * verdict incl (spec_globals entries) bin bout + verdict incl (spec_globals entries) bin be2e.
 """ % (coq_names(tables["DEFAULT"]), coq_names(tables["ROBLOX"]), coq_names(KEYWORDS))
 
 
@@ -274,18 +279,76 @@ def model_correspondence(ctx):
 
 
 # configurations: (rules json, include_functions, coq term of the configured globals)
+def make_config(entries=None, incl=False, detect=True):
+    """(rules json, include_functions, Coq term of the `globals` ENTRIES (list gentry), detect_globals, entries).
+    The configured set is computed from the entries inside Coq, by the oracle (spec_globals: DEFAULT plus the flat
+    expansion of every entry with the tables read from globals.rs) and, separately, by the model (configured_globals)."""
+    if entries is None and not incl and detect:
+        rules = '["rename_variables"]'
+    else:
+        obj = {"rule": "rename_variables"}
+        if entries is not None:
+            obj["globals"] = entries
+        if incl:
+            obj["include_functions"] = True
+        if not detect:
+            obj["detect_globals"] = False
+        rules = json.dumps([obj], separators=(",", ":"))
+    term = "[" + "; ".join("GDefault" if e == "$default" else "GRoblox" if e == "$roblox" else '(GName (nm "%s"))' % e
+                           for e in (entries or [])) + "]"
+    return (rules, incl, term, detect, list(entries or []))
+
+
 def configurations():
-    base = "g_default"      # Box::<RenameVariables>::default() starts from DEFAULT; `globals` extends it
     return [
-        ('["rename_variables"]', False, base),
-        ('[{"rule":"rename_variables","include_functions":true}]', True, base),
-        ('[{"rule":"rename_variables","globals":["$default"]}]', False, base),
-        ('[{"rule":"rename_variables","globals":["$roblox"]}]', False, "(g_default ++ g_roblox)%list"),
-        ('[{"rule":"rename_variables","include_functions":true,"globals":["$roblox"]}]', True, "(g_default ++ g_roblox)%list"),
-        ('[{"rule":"rename_variables","globals":["print","foo"]}]', False, '(g_default ++ [nm "print"; nm "foo"])%list'),
-        ('[{"rule":"rename_variables","include_functions":true,"globals":["print","foo","a","b"]}]', True,
-         '(g_default ++ [nm "print"; nm "foo"; nm "a"; nm "b"])%list'),
+        make_config(), make_config(incl=True), make_config(["$default"]), make_config(["$roblox"]),
+        make_config(["$roblox"], incl=True), make_config(["print", "foo"]),
+        make_config(["print", "foo", "a", "b"], incl=True),
     ]
+
+
+# `globals` lists in which the groups stand at every position among custom short names (the first names the
+# generator hands out), with repetitions: the configured set must be the union whatever the order
+ORDER_LISTS = [
+    ["a", "b", "c", "d", "$default"], ["$default", "a", "b", "c", "d"], ["a", "b", "$default", "c", "d"],
+    ["a", "$roblox", "b", "$default", "c", "d"], ["$roblox", "d", "c", "b", "a"], ["d", "c", "b", "a", "$roblox"],
+    ["a", "$default", "b", "$default", "c", "$default", "d"], ["$default", "$default", "a", "b", "c", "d"],
+    ["a", "b", "c", "d", "$roblox", "$roblox", "$default"], ["a", "b", "c", "d"],
+]
+
+
+def order_configurations(rnd, n_random):
+    """(configuration, all four custom names listed?) for the fixed lists x include_functions x detect_globals, plus
+    seeded random permutations of a random subset of the names with the groups inserted at random positions"""
+    out = []
+    for entries in ORDER_LISTS:
+        for incl in (False, True):
+            for detect in (True, False):
+                out.append(make_config(entries, incl, detect))
+    for _ in range(n_random):
+        names = rnd.sample(["a", "b", "c", "d"], rnd.randint(1, 4))
+        groups = [rnd.choice(["$default", "$roblox"]) for _ in range(rnd.randint(1, 3))]
+        entries = names[:]
+        for g in groups:
+            entries.insert(rnd.randint(0, len(entries)), g)
+        detect = len(names) < 4 or rnd.random() < 0.5     # detection may only be off when every used global is listed
+        out.append(make_config(entries, rnd.random() < 0.5, detect))
+    return out
+
+
+# programs whose free identifiers are among a, b, c, d and DEFAULT names: with all four listed, nothing can be
+# captured even when global detection is off
+GLOBALS_PROGRAMS = [
+    "local value = 1\nreturn a + value",
+    "local x, y, z, w, v = 1, 2, 3, 4, 5\nprint(a, b, c, d)\nreturn x + y + z + w + v",
+    "local function f(p, q) return a(p) + b(q) end\nlocal r = f(c, d)\nreturn r, print",
+    "for i = 1, 3 do local s = a[i] b(s, i) end\nfor k, v in pairs(c) do d(k, v) end",
+    "local t = {}\nfunction t:m(x) return self, x, a end\nfunction t.n(y) local z = y return b, z end\nreturn t, c, d",
+    "local v1, v2, v3, v4, v5, v6 = a, b, c, d, print, pairs\nreturn v1, v2, v3, v4, v5, v6",
+    "do local u = 1 print(u) end\ndo local w = 2 print(w, a) end\nlocal n = b\nreturn n, c, d",
+    "local function g() local h = 1 return h end\nlocal k = g()\nreturn k",
+    "local p1 = 1\nrepeat local p2 = p1 + 1 until p2 > d or c(p2)\nwhile a do local p3 = b p1 = p3 end\nreturn p1",
+]
 
 
 VERDICTS = {2: "nameless forms differ: a binding, a global, a field, a method name or self changed",
@@ -297,7 +360,7 @@ VERDICTS = {2: "nameless forms differ: a binding, a global, a field, a method na
 def run(ctx):
     C.build_harness("dl-rules")
     C.build_harness("dl-c09")
-    proofs_ok = C.proof_gate(ctx, ["Lua/Resolve.vo"])
+    proofs_ok = C.proof_gate(ctx, ["Lua/Resolve.vo", "Model/RenameTraversal.vo"])
     from concurrent.futures import ThreadPoolExecutor
     pool = ThreadPoolExecutor(max_workers=1)
     witness_job = pool.submit(C.harness, "dl-c09", ["self-witness", "--names", "4730700"], None, 900)
@@ -309,24 +372,30 @@ def run(ctx):
     gens = ['"dense"', '"readable"', '"retain_lines"']
 
     jobs = []  # (rules json, generator, source, include_functions, globals term, origin)
+    ocfgs = order_configurations(rnd, 12 if quick else 150)
+    detect_on = [c for c in ocfgs if c[3]]
     for src in G.TEMPLATES:
-        for rules, incl, gl in cfgs:
-            jobs.append((rules, rnd.choice(gens), src, incl, gl, "template"))
+        for rules, incl, gl, detect, _ in cfgs + rnd.sample(detect_on, 1 if quick else 6):
+            jobs.append((rules, rnd.choice(gens), src, incl, gl, "template", detect))
+    for src in GLOBALS_PROGRAMS:
+        for rules, incl, gl, detect, entries in ocfgs:
+            if detect or all(n in entries for n in "abcd"):
+                jobs.append((rules, rnd.choice(gens), src, incl, gl, "globals-order", detect))
     for n, style in ((400, 0), (400, 1), (300, 2), (400, 3)) if quick else \
             ((400, 0), (400, 1), (300, 2), (400, 3), (4200, 0), (1000, 1), (700, 3)):
-        for rules, incl, gl in (rnd.sample(cfgs, 2) if quick else cfgs[:4]):
-            jobs.append((rules, rnd.choice(gens), G.many_locals(n, style), incl, gl, "many-locals"))
+        for rules, incl, gl, detect, _ in (rnd.sample(cfgs, 2) if quick else cfgs[:4]):
+            jobs.append((rules, rnd.choice(gens), G.many_locals(n, style), incl, gl, "many-locals", detect))
     # negative controls (outside the property: global detection switched off lets a generated name capture a
     # global that appears later): the oracle must flag them, otherwise it cannot fail at all
     controls = ["local x = 1\nreturn a, x", "local function f(p) return p end\nreturn a(f)", "local v = 1\ndo local w = v end\nreturn b"]
     for src in controls:
         jobs.append(('[{"rule":"rename_variables","detect_globals":false,"include_functions":true}]', '"dense"', src,
-                     True, "g_default", "control"))
+                     True, "[]", "control", False))
     n_random = 500 if quick else 8000
     for k in range(n_random):
         src = G.random_program(rnd, luau=(k % 5 == 4))
-        for rules, incl, gl in rnd.sample(cfgs, 2):
-            jobs.append((rules, rnd.choice(gens), src, incl, gl, "random"))
+        for rules, incl, gl, detect, _ in rnd.sample(cfgs, 1) + rnd.sample(detect_on, 1):
+            jobs.append((rules, rnd.choice(gens), src, incl, gl, "random", detect))
 
     seen, uniq = set(), []
     for j in jobs:
@@ -354,7 +423,7 @@ def run(ctx):
         k = len(cases)
         index[k] = job
         cases.append((k, "(((%s, %s), %s), (%s, (%s, %s)))" % ("true" if job[3] else "false",
-                                                             "false" if job[5] == "control" else "true",
+                                                             "true" if job[6] else "false",
                                                              job[4], t_in, t_out, t_e2e)))
     # self-test of the oracle on hand-made (input tree, bad output tree) pairs, one per verdict class
     one = "(ENumber (NDec 4607182418800017408 None))"
@@ -381,7 +450,13 @@ def run(ctx):
     for incl, t_in, t_bad, expect in selftests:
         k = len(cases)
         selftest_ids[k] = expect
-        cases.append((k, "(((%s, true), g_default), (%s, (%s, %s)))" % ("true" if incl else "false", t_in, t_bad, t_bad)))
+        cases.append((k, "(((%s, true), []), (%s, (%s, %s)))" % ("true" if incl else "false", t_in, t_bad, t_bad)))
+    # a name listed BEFORE a group entry is a configured global like any other
+    for entries, new_name, expect in (('[(GName (nm "b")); GDefault]', "b", 4), ('[GRoblox; (GName (nm "b")); GDefault; GDefault]', "b", 4),
+                                      ('[GDefault; (GName (nm "c"))]', "b", 0), ('[(GName (nm "c")); GRoblox]', "game", 4)):
+        k = len(cases)
+        selftest_ids[k] = expect
+        cases.append((k, "(((true, true), %s), (%s, (%s, %s)))" % (entries, loc("x"), loc(new_name), loc(new_name))))
     if unparsable > len(jobs) // 10:
         raise C.CheckBroken("%d of %d generated programs do not parse" % (unparsable, len(jobs)))
     stats = C.run_coq_stats(ctx.prop, preamble(tables), cases, chunk=40 if quick else 120)
